@@ -346,7 +346,11 @@ KEYS = ["k", "key1", "END", "SIZE", "_x", "THE END", "a b", "é", "x" * 30, "end
         "_Foo", "_Size", "_Version", "_myKey", "__dunder__", "_Nrows", "_Shape", "_sIZE", "size", "nrows", "shape", "delim",
         "has_fields", "dtype", "version", "Size", "DELIM", "%", "%%", "%s", "%d", "%n", "pct%", "k%s"]
 RES_EXACT = ["_size", "_SIZE", "_nrows", "_NROWS", "_delim", "_DELIM", "_shape", "_SHAPE", "_has_fields", "_HAS_FIELDS",
-             "_DTYPE", "_VERSION"]
+             "_DTYPE", "_VERSION",
+             # any other spelling of the five names is stripped as well (/repo 04e3f20); spellings of _dtype / _version are user keys
+             "_Delim", "_DELim", "_dElIm", "_Size", "_sIZE", "_NRows", "_Nrows", "_Shape", "_sHAPE", "_Has_Fields", "_HAS_fields"]
+MIXED = ["_Delim", "_DELim", "_dElIm", "_Size", "_sIZE", "_NRows", "_Shape", "_Has_Fields", "_dtype", "_Dtype", "_dTYPE", "_DtYpE",
+         "_version", "_Version", "_vERSION"]
 
 
 def gen_value(r, depth=0):
@@ -391,16 +395,21 @@ def gen_header(r, family):
                                                 {"k%02d" % i: "END" for i in range(25)}])
     elif family == "reserved":
         for _ in range(r.choice([1, 2, 3])):
-            h[r.choice(RES_EXACT)] = gen_value(r)
+            h[r.choice(RES_EXACT + MIXED)] = gen_value(r)
+        if r.random() < 0.5:
+            h[r.choice(["_Delim", "_DELim", "_dElIm"])] = r.choice([",", "\t", " ", None, 0, ""])
     return h
 
 
+def is_reserved(k):
+    """Spec.reserved"""
+    return k.lower() in ("_size", "_nrows", "_delim", "_shape", "_has_fields") or k in ("_DTYPE", "_VERSION")
+
+
 def user_hdr_ok(hdr):
-    """the statement's user headers: no spelling other than the reserved names themselves that the
-    case-insensitive reader would take for the file's delimiter or dtype (Spec.user_key_ok)"""
+    """Spec.user_key_ok: what is left of the carve-out of the ABSTRACT theorem — a key spelling _dtype otherwise than
+    _DTYPE (the real code is judged on such headers all the same)"""
     for k in (hdr or {}):
-        if k.lower() == "_delim" and k not in ("_delim", "_DELIM"):
-            return False
         if k.lower() == "_dtype" and k != "_DTYPE":
             return False
     return True
@@ -427,6 +436,10 @@ ADV = [
     ("adv:percent", [["x", "<i4", []], ["y", ">f8", []]], {"completeness": "100%% of tiles", "p": "50% done", "%": "%d", "k%s": "%s",
                                                          "fmt": "%5.2f%%", "n": "%n", "l": ["%", "%%", ("%s",)], "b": b"%s%n"}),
     ("adv:percent-mild", [["x", "<i4", []], ["y", ">f8", []]], {"completeness": "100%% of tiles"}),
+    ("adv:mixed-case-reserved", [["x", "<i4", []], ["y", ">f8", []]], {"_Delim": ",", "_Size": 77, "_NRows": 5, "_Has_Fields": 1, "_sHAPE": (2,),
+                                                                     "_dtype": "junk", "_DtYpE": [("a", "i4")], "_Version": "x", "_version": 2,
+                                                                     "keep": "me"}),
+    ("adv:mixed-case-delim", [["s", "|S4", []], ["y", "<i2", []]], {"_Delim": ","}),
     ("adv:no-header", [["x", "<i4", []], ["y", ">f8", [2]]], None),
     ("adv:empty-header", [["x", "<i4", []], ["s", "|S5", [2]]], {}),
 ]
@@ -978,7 +991,7 @@ class SFileEntry(IsoEntry):
         if out.get("c_contiguous") is False and rd and rd[0] == "ok":
             o = rd[1]
             if (o["dtype"] == c["dtype"] and o["hdtype"] == c["dtype"] and o["size"] == len(c["rows"]) and len(o["rows"]) == len(c["rows"])
-                    and all(v for k, v in o["keys"] if k not in RES_EXACT) and o["rows"] != c["rows"]):
+                    and all(v for k, v in o["keys"] if not is_reserved(k)) and o["rows"] != c["rows"]):
                 return KF_NONCONTIG
         return None
 
@@ -1840,7 +1853,7 @@ def extract_constants(impl_root):
     import re
     src = open(os.path.join(impl_root, "esutil", "sfile.py")).read()
     tree = ast.parse(src)
-    version = fmt = keys = None
+    version = fmt = None
     for node in tree.body:
         if isinstance(node, ast.Assign) and any(isinstance(t, ast.Name) and t.id == "SFILE_VERSION" for t in node.targets):
             version = ast.literal_eval(node.value)
@@ -1849,11 +1862,8 @@ def extract_constants(impl_root):
     for n in ast.walk(meth["_get_size_string"]):
         if isinstance(n, ast.BinOp) and isinstance(n.op, ast.Mod) and isinstance(n.left, ast.Constant) and isinstance(n.left.value, str):
             fmt = n.left.value
-    for n in ast.walk(meth["_make_header"]):
-        if isinstance(n, ast.For) and isinstance(n.iter, (ast.List, ast.Tuple)):
-            keys = [ast.literal_eval(e) for e in n.iter.elts]
-    if version is None or fmt is None or keys is None:
-        raise ValueError("sfile.py: SFILE_VERSION / size format / deleted-key list not found")
+    if version is None or fmt is None:
+        raise ValueError("sfile.py: SFILE_VERSION / size format not found")
     cpp = open(os.path.join(impl_root, "esutil", "recfile", "records.cpp")).read()
     m = re.search(r"PyObject\*\s+Records::read_sfile_header\(void\)\s*\{(.*?)\n\}", cpp, re.S)
     if not m:
@@ -1863,7 +1873,7 @@ def extract_constants(impl_root):
     incm = re.findall(r"count\s*\+=\s*(\d+)\s*;", body)
     if not cmpm or len(incm) != 1:
         raise ValueError("records.cpp: scanner literal / count increment not found")
-    return {"version": version, "fmt": fmt, "keys": keys, "scan_lit": c_unescape(cmpm.group(1)).hex(),
+    return {"version": version, "fmt": fmt, "scan_lit": c_unescape(cmpm.group(1)).hex(),
             "scan_n": int(cmpm.group(2)), "incr": int(incm[0])}
 
 
@@ -1884,11 +1894,6 @@ def source_tie(ctx):
             txt = b"<format failed>"
         terms.append("v_tie_size %s %s" % (cz(n), cbytes(txt)))
         names.append("size_line %d = %r %% %d" % (n, k["fmt"], n))
-    dk = []
-    for key in k["keys"]:
-        dk += [key, key.upper()]
-    terms.append("v_tie_keys [%s]" % "; ".join(cbytes(x.encode()) for x in dk))
-    names.append("deleted_keys = keys removed by _make_header %r" % (k["keys"],))
     terms.append("v_tie_version %s" % cbytes(k["version"].encode()))
     names.append("sfile_version = SFILE_VERSION %r" % k["version"])
     terms.append("v_tie_scan %s %d%%nat %d%%nat" % (cbytes(bytes.fromhex(k["scan_lit"])), k["scan_n"], k["incr"]))
